@@ -522,7 +522,45 @@ pub fn collect_handles(v: &Val, out: &mut Vec<Val>) {
         _ => {}
     }
 }
+/// Like `short`, but borrow payloads (which are memory addresses when they are
+/// reps of exported resources) are masked: traces never contain addresses.
+pub fn short_masked(v: &Val) -> String {
+    fn go(v: &Val, out: &mut String) {
+        match v {
+            Val::Borrow(_) => out.push_str("Borrow(<rep>)"),
+            Val::List(xs) => {
+                out.push_str("List([");
+                for (i, x) in xs.iter().enumerate() {
+                    if i > 0 {
+                        out.push_str(", ");
+                    }
+                    go(x, out);
+                }
+                out.push_str("])");
+            }
+            Val::Record(xs) => {
+                out.push_str("Record([");
+                for (i, x) in xs.iter().enumerate() {
+                    if i > 0 {
+                        out.push_str(", ");
+                    }
+                    go(x, out);
+                }
+                out.push_str("])");
+            }
+            Val::Variant(d, Some(p)) => {
+                out.push_str(&format!("Variant({d}, "));
+                go(p, out);
+                out.push(')');
+            }
+            other => out.push_str(&format!("{other:?}")),
+        }
+    }
+    let mut s = String::new();
+    go(v, &mut s);
+    if s.chars().count() > 160 { format!("{}...", s.chars().take(160).collect::<String>()) } else { s }
+}
 pub fn short(v: &Val) -> String {
     let s = format!("{v:?}");
-    if s.len() > 160 { format!("{}...", &s[..160]) } else { s }
+    if s.chars().count() > 160 { format!("{}...", s.chars().take(160).collect::<String>()) } else { s }
 }
